@@ -44,18 +44,25 @@ func spinc(x) { f := func() { return x }; for i := 0; i < 100000000; i++ { x = x
 func imp(k) { import cmod; return cmod.value + cmod.pre + k }
 func imp2(k) { import cmod2; return cmod2.answer + k }
 func impslow(k) { x := 0; for i := 0; i < 6; i++ { x++ }; import cmod2; for i := 0; i < 100000000; i++ { x++ }; return cmod2.answer + x }
+func imp4(k) { import cmod4; return cmod4.bump() + k }
 func spimp(k) { t := spawn(func() { import cmod3; return cmod3.bump() }); return t.wait() + k }
 func imp3(k) { import cmod3; return cmod3.bump() + k }
 gx := 0
 func setg(v) { gx = v; return gx }
 func nestg() { inner := func() { deeper := func() { return gx }; return deeper() + 0 }; return inner() }
 func who() { return os.getenv("WHO") }
+func rdin() { return string(os.stdin.read()) }
 worker := spawn(func() { return 7 })
 wfirst := worker.wait()
 func waitw(k) { return worker.wait() + wfirst - 7 + k }
 `
 
 const c07Module2 = "first := 1\nfunc helper(a) { return a * 2 }\nsecond := helper(first)\nanswer := 40 + second\n"
+
+// c07LibTop4 is prepended to the library in some of its runs: the library then
+// imports cmod4 itself and publishes one of the module's functions, which the
+// host keeps.
+const c07LibTop4 = "import cmod4\nmodfn := cmod4.bump\n"
 
 const c07Module3 = "n := 0\nfunc bump() { n = n + 1; return n }\n"
 
@@ -88,6 +95,9 @@ type invocation struct {
 	Background bool // runs under context.Background(), which can never be cancelled
 	CtxOS      bool // the invocation's context carries an OS of its own (WHO=req<k>)
 	NoOpts     bool // RunCode without options: the VM keeps what an earlier RunCode configured
+	ReqTag     string // RunCode with a per-invocation value for the global `request`
+	StaleMod   bool   // stale call of a kept MODULE function (not of a library function)
+	StalePrev  bool   // the kept function belongs to the library before the live one
 	Stateful   bool // a Call that changes globals and must be replayed on the model
 	OwnDelta   int  // for cancelled/deadline: steps after start at which the fault lands
 	// stale cancels: earlier invocation index -> delta steps after this
@@ -130,6 +140,7 @@ func genHistory(g *sim.Stream, f *sim.Stream) []*invocation {
 	var hist []*invocation
 	libLive := false
 	libSeen := false
+	libCount := 0 // successful-by-construction library RunCodes so far
 	// family "main": the VM is created with the library as its main program
 	// (vm.New); invocation 0 is Run, later ones are Calls of its functions and
 	// further Runs (which have nothing left to execute)
@@ -137,14 +148,46 @@ func genHistory(g *sim.Stream, f *sim.Stream) []*invocation {
 	followImport := false
 	sawRunCode := false
 	mod3Loaded := false // the VM itself (not only a clone) has imported cmod3
+	mod4Loaded := false // ... cmod4 (by the library's own top-level import, or through imp4)
+	hadTop4 := false    // some earlier library published a function of cmod4
 	// theme: a global written through one function and read through functions
 	// nested in another, with repeated Runs in between
 	themeNested := mainFamily && g.Chance(1, 4)
 	if themeNested && n < 4 {
 		n = 4
 	}
+	themeStale4 := !mainFamily && g.Chance(1, 15)
+	if themeStale4 && n < 5 {
+		n = 5
+	}
 	for k := 0; k < n; k++ {
 		iv := &invocation{Stale: map[int]int{}}
+		libTop4 := false // this invocation runs the library variant that imports cmod4 itself
+		if themeStale4 && k < 4 {
+			// theme: a library that publishes a function of an imported module;
+			// another library; the host calls the function it kept; the new
+			// library imports the same module and uses it
+			switch k {
+			case 0, 1:
+				iv.API, iv.Kind, iv.IsLib = "RunCode", kNormal, true
+				iv.Src = c07Lib + fmt.Sprintf("\n%d\n", 1000+g.Intn(1000))
+				if k == 0 {
+					iv.Src = c07LibTop4 + iv.Src
+				}
+				sawRunCode, libLive, libSeen = true, true, true
+				libCount++
+				mod3Loaded, mod4Loaded, hadTop4 = false, k == 0, true
+			case 2:
+				iv.API, iv.Kind, iv.Fn, iv.Args = "Call", kStaleCall, "add", []int{1, 2}
+				iv.StalePrev, iv.StaleMod = true, true
+			default:
+				iv.API, iv.Kind = "Call", kNormal
+				iv.Fn, iv.Args, iv.Stateful = "imp4", []int{g.Intn(9)}, true
+				mod4Loaded = true
+			}
+			hist = append(hist, iv)
+			continue
+		}
 		if followImport && libLive {
 			// an invocation whose import was interrupted is followed by one that
 			// imports the same module and uses it: whatever the interrupted
@@ -158,6 +201,10 @@ func genHistory(g *sim.Stream, f *sim.Stream) []*invocation {
 		if mainFamily && k == 0 {
 			iv.API, iv.Kind, iv.IsLib = "Run", kNormal, true
 			iv.Src = c07Lib + fmt.Sprintf("\n%d\n", 3000+g.Intn(1000))
+			if g.Bool() {
+				iv.Src = c07LibTop4 + iv.Src
+				mod4Loaded, hadTop4 = true, true
+			}
 			hist = append(hist, iv)
 			libLive, libSeen = true, true
 			continue
@@ -199,12 +246,18 @@ func genHistory(g *sim.Stream, f *sim.Stream) []*invocation {
 		}
 		iv.Kind = kind
 		useCall := libLive && (mainFamily || g.Chance(3, 5))
-		if !mainFamily && libSeen && !libLive && g.Chance(1, 4) {
+		if !mainFamily && ((libSeen && !libLive && g.Chance(1, 4)) || (libLive && libCount >= 2 && g.Chance(1, 8))) {
 			// questionable but possible usage: the host kept a function of code
 			// that a later RunCode replaced. Whatever it returns (today: a
 			// recovered nil-pointer panic), the invocations after it must be
 			// unaffected.
 			iv.API, iv.Kind, iv.Fn, iv.Args = "Call", kStaleCall, "add", []int{1, 2}
+			iv.StalePrev = libLive // a library is live: the function is one of the library BEFORE it
+			// the kept function may be one of an imported module (cmod4): only if
+			// some earlier library published one and the VM does not have cmod4
+			// loaded right now (the importer hands every generation the same
+			// compiled code, so the old function object would simply work)
+			iv.StaleMod = hadTop4 && !mod4Loaded && g.Bool()
 			hist = append(hist, iv)
 			continue
 		}
@@ -212,13 +265,20 @@ func genHistory(g *sim.Stream, f *sim.Stream) []*invocation {
 			iv.API = "Call"
 			switch kind {
 			case kNormal:
-				switch g.Intn(14) {
+				switch g.Intn(16) {
+				case 15:
+					// standard input of the OS that came with this invocation's context
+					iv.Fn, iv.CtxOS = "rdin", true
 				case 12:
 					// a thread spawned by this invocation imports a module the VM
 					// itself has not imported (the clone's table is its own)
 					// (stateful once the VM itself has imported the module: the clone
 					// then shares it, by design)
 					iv.Fn, iv.Args, iv.Stateful = "spimp", []int{g.Intn(9)}, mod3Loaded
+				case 14:
+					// (cmod4 is imported by the library itself; its counter keeps counting)
+					iv.Fn, iv.Args, iv.Stateful = "imp4", []int{g.Intn(9)}, true
+					mod4Loaded = true
 				case 13:
 					// stateful: the module stays imported, its counter keeps counting
 					iv.Fn, iv.Args, iv.Stateful = "imp3", []int{g.Intn(9)}, true
@@ -295,6 +355,14 @@ func genHistory(g *sim.Stream, f *sim.Stream) []*invocation {
 				if g.Chance(1, 2) {
 					iv.IsLib = true
 					iv.Src = c07Lib + fmt.Sprintf("\n%d\n", 1000+g.Intn(1000))
+					if g.Bool() {
+						iv.Src = c07LibTop4 + iv.Src
+						libTop4 = true
+					}
+				} else if g.Chance(1, 6) {
+					// the host passes this invocation's own value for a global
+					iv.Src = "[request, len(request)]"
+					iv.ReqTag = fmt.Sprintf("req-%d-%d", k, g.Intn(1000))
 				} else if g.Chance(1, 5) {
 					// every run of this script imports the module afresh
 					iv.Src = "import cmod3\n[cmod3.bump(), cmod3.bump()]"
@@ -344,18 +412,23 @@ func genHistory(g *sim.Stream, f *sim.Stream) []*invocation {
 				}
 			}
 		}
-		if iv.API == "RunCode" && sawRunCode && g.Chance(1, 3) {
+		if iv.API == "RunCode" && sawRunCode && iv.ReqTag == "" && g.Chance(1, 3) {
 			iv.NoOpts = true
 		}
 		if iv.API == "RunCode" {
 			sawRunCode = true
 			mod3Loaded = false
+			mod4Loaded = libTop4 && iv.Kind == kNormal
+			if mod4Loaded {
+				hadTop4 = true
+			}
 		}
 		hist = append(hist, iv)
 		if iv.API == "RunCode" {
 			libLive = iv.IsLib && iv.Kind == kNormal
 			if libLive {
 				libSeen = true
+				libCount++
 			}
 		}
 		if iv.Kind != kCancelled && iv.Kind != kDeadline && iv.Kind != kPreCancelled && g.Chance(1, 4) {
@@ -447,6 +520,9 @@ func runInv(ctx context.Context, m *vm.VirtualMachine, cfg *risor.Config, failIm
 	}
 	if iv.API == "RunCode" {
 		opts := cfg.VMOpts()
+		if iv.ReqTag != "" {
+			opts = append(opts, vm.WithGlobals(map[string]any{"request": iv.ReqTag}))
+		}
 		if iv.NoOpts {
 			opts = nil
 		}
@@ -516,6 +592,7 @@ func c07ModuleDir() string {
 		os.WriteFile(d+"/cmod.risor", []byte(c07Module), 0o644)
 		os.WriteFile(d+"/cmod2.risor", []byte(c07Module2), 0o644)
 		os.WriteFile(d+"/cmod3.risor", []byte(c07Module3), 0o644)
+		os.WriteFile(d+"/cmod4.risor", []byte(c07Module3), 0o644)
 		c07Dir = d
 	})
 	return c07Dir
@@ -525,6 +602,7 @@ func c07ModuleDir() string {
 func c07ReqOS(k int) *simos.SimOS {
 	o := simos.New()
 	o.Setenv("WHO", fmt.Sprintf("req%d", k))
+	o.SetStdin(fmt.Sprintf("stdin-of-req%d", k))
 	return o
 }
 
@@ -545,12 +623,13 @@ func runC07(rc *fw.RunCtx) {
 	})}
 	extra["os"] = modOs.Module()
 	extra["hits"] = 0 // a data global supplied by the host, which scripts rebind
+	extra["request"] = "req-none" // replaced per invocation by some RunCodes
 	var gnames []string
 	for k := range baseGlobals(extra) {
 		gnames = append(gnames, k)
 	}
 	sort.Strings(gnames)
-	mfs := fstest.MapFS{"cmod.risor": &fstest.MapFile{Data: []byte(c07Module)}, "cmod2.risor": &fstest.MapFile{Data: []byte(c07Module2)}, "cmod3.risor": &fstest.MapFile{Data: []byte(c07Module3)}}
+	mfs := fstest.MapFS{"cmod.risor": &fstest.MapFile{Data: []byte(c07Module)}, "cmod2.risor": &fstest.MapFile{Data: []byte(c07Module2)}, "cmod3.risor": &fstest.MapFile{Data: []byte(c07Module3)}, "cmod4.risor": &fstest.MapFile{Data: []byte(c07Module3)}}
 	// modules come from FSImporter over an in-memory tree or from LocalImporter
 	// over a scratch directory
 	useLocal := g.Chance(1, 3)
@@ -655,6 +734,8 @@ func runC07(rc *fw.RunCtx) {
 	cur := -1
 	var probeErr string
 	var staleFn *object.Function
+	var staleModFn *object.Function
+	var prevFn, prevModFn *object.Function // of the library before the current one
 	finished := false
 	s.Go("main", "main", func() {
 		for k, iv := range hist {
@@ -714,14 +795,24 @@ func runC07(rc *fw.RunCtx) {
 			}
 			if iv.Kind == kStaleCall {
 				got[k] = invResult{Val: "<no stale function kept>"}
-				if staleFn != nil {
+				sfn, sargs := staleFn, []object.Object{object.NewInt(1), object.NewInt(2)}
+				if iv.StalePrev {
+					sfn = prevFn
+				}
+				if iv.StaleMod {
+					sfn, sargs = staleModFn, nil
+					if iv.StalePrev {
+						sfn = prevModFn
+					}
+				}
+				if sfn != nil {
 					func() {
 						defer func() {
 							if r := recover(); r != nil {
 								got[k] = invResult{Err: fmt.Sprintf("PANIC-ESCAPED: %v", r)}
 							}
 						}()
-						v, err := machine.Call(ctxs[k], staleFn, []object.Object{object.NewInt(1), object.NewInt(2)})
+						v, err := machine.Call(ctxs[k], sfn, sargs)
 						if err != nil {
 							got[k] = invResult{Err: err.Error(), Raw: err}
 						} else {
@@ -733,8 +824,12 @@ func runC07(rc *fw.RunCtx) {
 				got[k] = runInv(ctxs[k], machine, cfg, &failImport, iv, codes[k])
 			}
 			if (iv.API == "RunCode" || iv.API == "Run") && iv.IsLib && got[k].Err == "" {
+				prevFn, prevModFn = staleFn, staleModFn
 				if fnObj, err := machine.Get("add"); err == nil {
 					staleFn, _ = fnObj.(*object.Function)
+				}
+				if fnObj, err := machine.Get("modfn"); err == nil {
+					staleModFn, _ = fnObj.(*object.Function)
 				}
 			}
 			done[k] = true
